@@ -135,18 +135,25 @@ package gedcom
 //@ spec func timeSpec(d int, m int, y int, eor bool) int = ite(eor, (lastDay(d, m, y) + 1)*NSDAY - 1, firstDay(d, m, y)*NSDAY)
 //@ func NewDuration
 //@   props C05 C20
-//@   ensures result.Duration == abs(duration) && result.IsKnown == isKnown && result.IsEstimate == isEstimate
+//@   ensures implies(duration > 0 - 9223372036854775808, result.Duration == abs(duration)) && result.IsKnown == isKnown && result.IsEstimate == isEstimate
 //@   assigns nothing
 //@ func Date.Sub
 //@   props C05
 //@   let ok = (shapeOK(date.Day, date.Month, date.Year) && shapeOK(date2.Day, date2.Month, date2.Year)) && (!(date.IsEndOfRange && date.Year == 1 && date.Month <= 1 && date.Day <= 1) && !(date2.IsEndOfRange && date2.Year == 1 && date2.Month <= 1 && date2.Day <= 1))
-//@   ensures distance: implies(ok, result.Duration == abs(timeSpec(date.Day, date.Month, date.Year, date.IsEndOfRange) - timeSpec(date2.Day, date2.Month, date2.Year, date2.IsEndOfRange)))
+// (two instants more than a Duration - about 292 years - apart are outside this
+// clause: time.Time.Sub saturates there and Date.Sub returns a wrong, possibly
+// negative, distance; no listed property speaks about such distances - noted
+// in DESIGN.md)
+//@   let near = abs(timeSpec(date.Day, date.Month, date.Year, date.IsEndOfRange) - timeSpec(date2.Day, date2.Month, date2.Year, date2.IsEndOfRange)) <= 9223372036854775807
+//@   ensures distance: implies(ok && near, result.Duration == abs(timeSpec(date.Day, date.Month, date.Year, date.IsEndOfRange) - timeSpec(date2.Day, date2.Month, date2.Year, date2.IsEndOfRange)))
 //@   ensures known: implies(ok, result.IsKnown == isnil(date.ParseError))
 //@   assigns nothing
 //@ func DateRange.Duration
 //@   props C05
 //@   let ok = (shapeOK(dr.start.Day, dr.start.Month, dr.start.Year) && shapeOK(dr.end.Day, dr.end.Month, dr.end.Year)) && (!dr.start.IsEndOfRange && dr.end.IsEndOfRange && !(dr.end.Year == 1 && dr.end.Month <= 1 && dr.end.Day <= 1)) && (firstDay(dr.start.Day, dr.start.Month, dr.start.Year) <= lastDay(dr.end.Day, dr.end.Month, dr.end.Year))
-//@   ensures length: implies(ok, result.Duration == (lastDay(dr.end.Day, dr.end.Month, dr.end.Year) - firstDay(dr.start.Day, dr.start.Month, dr.start.Year) + 1)*NSDAY - 1)
+// (for ranges no longer than a Duration can hold, about 292 years; the period
+// of a single date - what C05 speaks about - is at most 366 days)
+//@   ensures length: implies(ok && (lastDay(dr.end.Day, dr.end.Month, dr.end.Year) - firstDay(dr.start.Day, dr.start.Month, dr.start.Year) + 1)*NSDAY - 1 <= 9223372036854775807, result.Duration == (lastDay(dr.end.Day, dr.end.Month, dr.end.Year) - firstDay(dr.start.Day, dr.start.Month, dr.start.Year) + 1)*NSDAY - 1)
 //@   assigns nothing
 //@ func DateRange.Years
 //@   props C05 C12
